@@ -81,7 +81,8 @@ Fixpoint drun (s : dstate) (ops : list dop) : dstate :=
   match ops with [] => s | o :: r => drun (dstep s o) r end.
 
 (* ---- membership (environment) *)
-Record member : Type := mkm { m_group : Z; m_any : bool; m_srcs : list Z }.
+Record member : Type := mkm { m_group : Z; m_any : bool; m_srcs : list Z; m_alloc : bool }.
+   (* m_alloc: the kernel has allocated a source list for this membership (a source was added at some point) *)
    (* any-source join with m_srcs = blocked sources, or source-specific join with m_srcs = allowed sources *)
 
 Inductive gop : Type :=
@@ -97,32 +98,31 @@ Definition zmem (x : Z) (l : list Z) : bool := existsb (Z.eqb x) l.
 Definition zdel (x : Z) (l : list Z) : list Z := filter (fun y => negb (y =? x)) l.
 
 (* The source calls of Linux (net/ipv4/igmp.c ip_mc_source): JoinSource/LeaveSource work on INCLUDE-mode memberships,
-   BlockSource/UnblockSource on EXCLUDE-mode (any-source) ones.  A membership whose source list is EMPTY is switched to the
-   mode of the call first - also when the call then fails; removing the last source of an INCLUDE membership leaves the
+   BlockSource/UnblockSource on EXCLUDE-mode (any-source) ones.  A membership for which no source list was ever allocated is
+   switched to the mode of the call first - also when the call then fails; removing the last source of an INCLUDE membership leaves the
    group.  [any] is the mode of the call, [add] whether it adds or removes the source. *)
 Definition src_op (l : list member) (g : Z) (any add : bool) (s : Z) : list member * Z :=
   match mfind g l with
-  | None => if negb any && add then (mkm g false [s] :: l, 0) else (l, 1)
+  | None => if negb any && add then (mkm g false [s] true :: l, 0) else (l, 1)
   | Some m =>
-      match m_srcs m, Bool.eqb (m_any m) any with
-      | _ :: _, false => (l, 1)
-      | srcs, _ =>
-          if add then
-            if zmem s srcs then (mkm g any srcs :: mremove g l, 1)
-            else (mkm g any (s :: srcs) :: mremove g l, 0)
-          else if zmem s srcs then
-            match zdel s srcs, any with
-            | [], false => (mremove g l, 0)
-            | r, _ => (mkm g any r :: mremove g l, 0)
-            end
-          else (mkm g any srcs :: mremove g l, 1)
-      end
+      if m_alloc m && negb (Bool.eqb (m_any m) any) then (l, 1)       (* a filter was set: the mode cannot change *)
+      else
+        let srcs := m_srcs m in
+        if add then
+          if zmem s srcs then (mkm g any srcs (m_alloc m) :: mremove g l, 1)
+          else (mkm g any (s :: srcs) true :: mremove g l, 0)
+        else if zmem s srcs then
+          match zdel s srcs, any with
+          | [], false => (mremove g l, 0)
+          | r, _ => (mkm g any r (m_alloc m) :: mremove g l, 0)
+          end
+        else (mkm g any srcs (m_alloc m) :: mremove g l, 1)
   end.
 
 (* result: new memberships and whether the call succeeds (0) or fails (1) *)
 Definition gstep (l : list member) (o : gop) : list member * Z :=
   match o with
-  | GJoin g => match mfind g l with Some _ => (l, 1) | None => (mkm g true [] :: l, 0) end
+  | GJoin g => match mfind g l with Some _ => (l, 1) | None => (mkm g true [] false :: l, 0) end
   | GLeave g => match mfind g l with Some _ => (mremove g l, 0) | None => (l, 1) end
   | GJoinSource g s => src_op l g false true s
   | GLeaveSource g s => src_op l g false false s
